@@ -174,7 +174,10 @@ impl Rig {
     fn wanted(&self, name: &str) -> bool {
         match &self.only {
             None => true,
-            Some(v) => v.iter().any(|w| w == name || name.split('/').next() == Some(w.as_str())),
+            Some(v) => {
+                let base = name.split('/').next().unwrap_or(name);
+                v.iter().any(|w| w == name || w == base)
+            }
         }
     }
 
@@ -183,15 +186,17 @@ impl Rig {
     where
         T: Send + Sync + Debug + 'static,
     {
-        assert!(!self.seen.contains(&name), "duplicate table row {name}");
-        self.seen.push(name);
         if self.list {
+            // (quadratic duplicate check only here: it is far too slow for Miri)
+            assert!(!self.seen.contains(&name), "duplicate table row {name}");
+            self.seen.push(name);
             println!("TYPE {name}");
             return;
         }
         if !self.wanted(name) {
             return;
         }
+        self.seen.push(name);
         let threads = self.threads;
         let iters = self.iters;
         let full = move |t: &T| -> String { format!("{}\n-- debug --\n{:?}", render(t), t) };
@@ -354,6 +359,7 @@ fn main() {
     table::static_gate();
     table::run(&mut rig);
     if let Some(only) = &rig.only {
+        // every --only name must have selected at least one row (`seen` holds the rows run)
         for w in only {
             assert!(
                 rig.seen.iter().any(|n| n == w || n.split('/').next() == Some(w.as_str())),
